@@ -711,6 +711,195 @@ def c12(chk):
     chk.assumptions += ["the component replay uses 1..4-byte buffers; the end-to-end stage uses the real 32 KiB copy buffer"]
 
 
+def wp_variant():
+    fixed = [f for f in vlib.known_findings().get("fixed", []) if f.get("signature") == "wpool-flusher-exit-window"]
+    return "repaired" if fixed else "asfound"
+
+
+WP_SCENARIOS = [
+    dict(name="deferred_1w_4", workers=1, jobs=4, stoppers=0, runners=0, startRunning=True),
+    dict(name="deferred_1w_5", workers=1, jobs=5, stoppers=0, runners=0, startRunning=True),
+    dict(name="deferred_2w_7", workers=2, jobs=7, stoppers=0, runners=0, startRunning=True),
+    dict(name="stop_vs_sends", workers=1, jobs=3, stoppers=1, runners=0, startRunning=True),
+    dict(name="stop_vs_deferred", workers=1, jobs=5, stoppers=1, runners=0, startRunning=True),
+    dict(name="two_stops", workers=1, jobs=1, stoppers=2, runners=0, startRunning=True),
+    dict(name="stop_run_send", workers=1, jobs=2, stoppers=1, runners=1, startRunning=True),
+    dict(name="send_before_run", workers=1, jobs=1, stoppers=0, runners=1, startRunning=False),
+    dict(name="two_runs", workers=2, jobs=2, stoppers=0, runners=2, startRunning=False),
+    dict(name="stop_before_run", workers=1, jobs=0, stoppers=1, runners=1, startRunning=False),
+]
+
+
+def wp_consts(sc, variant, ordered=False, jobs=None):
+    return dict(NWorkers=sc["workers"], Jobs=set(range(1, (jobs or sc["jobs"]) + 1)), Stoppers=set(range(1, sc["stoppers"] + 1)),
+                Runners=set(range(1, sc["runners"] + 1)), Variant=variant, StartRunning=sc["startRunning"], Ordered=ordered,
+                SpuriousTimeout=True)
+
+
+WP_SIGNATURES = {
+    # signature -> predicate over the execution record
+    "wpool-send-before-run": lambda e: e["outcome"] == "panic" and not e["scenario"]["startRunning"] and "Send" in (e.get("detail") or "") and "nil pointer" in (e.get("detail") or ""),
+    "wpool-concurrent-stop": lambda e: e["outcome"] == "panic" and e["scenario"]["stoppers"] >= 2 and ("close of closed channel" in (e.get("detail") or "") or "unlock of unlocked" in (e.get("detail") or "")),
+}
+
+
+def c16(chk):
+    quick = chk.tier == "quick"
+    var = wp_variant()
+    # ---- design: safety, liveness and panic freedom of WPool.tla on small configurations
+    wd = vlib.scratch("wpd")
+    try:
+        inv = ("AtMostOnce", "NoPanic", "NoStartAfterStop", "StopWaitsForJobs", "NoStrandedJob")
+        designs = [("deferred_3jobs", WP_SCENARIOS[0], 3), ("two_stops", WP_SCENARIOS[5], None), ("stop_vs_sends", WP_SCENARIOS[3], 2 if quick else 3),
+                   ("send_before_run", WP_SCENARIOS[7], None), ("stop_run_send", WP_SCENARIOS[6], None), ("two_runs", WP_SCENARIOS[8], None)]
+        if not quick:
+            designs.append(("deferred_2workers", WP_SCENARIOS[2], 3))
+        for name, sc, jobs in designs:
+            consts = wp_consts(sc, var, ordered=True, jobs=jobs)
+            cfg = os.path.join(wd, name + ".cfg")
+            vlib.write_cfg(cfg, consts, invariants=inv)
+            r = vlib.run_tlc("WPool.tla", cfg, wd, timeout=2400)
+            st = chk.add_tlc("design_" + name, r, consts)
+            if r.violation:
+                st["tlc_violation"] = r.violation[:600]
+                chk.extra.setdefault("design_counterexamples", []).append({"stage": name, "text": r.violation[:2500]})
+        if not quick:
+            # liveness proper, on the smallest configuration that shows the deferred path
+            consts = wp_consts(WP_SCENARIOS[0], var, ordered=True, jobs=2)
+            cfg = os.path.join(wd, "live.cfg")
+            vlib.write_cfg(cfg, consts, spec="Spec", properties=("EveryJobRuns", "SendReturns"))
+            r = vlib.run_tlc("WPool.tla", cfg, wd, timeout=3000)
+            st = chk.add_tlc("design_liveness_2jobs", r, consts)
+            if r.violation:
+                st["tlc_violation"] = r.violation[:600]
+                chk.extra.setdefault("design_counterexamples", []).append({"stage": "liveness", "text": r.violation[:2500]})
+    finally:
+        shutil.rmtree(wd, ignore_errors=True)
+    # ---- schedules found by TLC replayed on the real pool: the committed counterexample of the stranded-job window
+    #      (found on WPool.tla with Variant = "asfound"), and in the thorough tier whatever TLC finds now on the
+    #      replayable configuration (strict time-out, 5 jobs)
+    fx = [json.loads(l) for l in open(os.path.join(vlib.VERIF, "fixtures", "wpool_h13_schedule.ndjson")) if l.strip()]
+    sched_scen = list(fx)
+    if not quick:
+        wd = vlib.scratch("wpr")
+        try:
+            consts = dict(wp_consts(WP_SCENARIOS[1], var, ordered=True), SpuriousTimeout=False)
+            cfg = os.path.join(wd, "replayable.cfg")
+            vlib.write_cfg(cfg, consts, invariants=("AtMostOnce", "NoPanic", "NoStrandedJob"))
+            r = vlib.run_tlc("WPool.tla", cfg, wd, timeout=3000)
+            st = chk.add_tlc("design_replayable_5jobs", r, consts)
+            if r.violation:
+                st["tlc_violation"] = r.violation[:600]
+                sch = wp_schedule_from_tlc(open(r.out_path).read())
+                sched_scen.append(dict(WP_SCENARIOS[1], name="tlc_counterexample", schedule=sch))
+        finally:
+            shutil.rmtree(wd, ignore_errors=True)
+    replayed = vlib.run_wprun(sched_scen, mode="random", runs=1)
+    # ---- the real pool under the controlled scheduler
+    execs = replayed + vlib.run_wprun(WP_SCENARIOS, mode="dfs", runs=150 if quick else 2500, preempt=2 if quick else 3)
+    execs += vlib.run_wprun(WP_SCENARIOS, mode="random", runs=30 if quick else 400)
+    kf = {f["signature"] for f in vlib.known_findings().get("findings", []) if f.get("property") == "C16"}
+    outcomes = {}
+    for e in execs:
+        outcomes[e["outcome"]] = outcomes.get(e["outcome"], 0) + 1
+        probs = list(e.get("problems") or [])
+        if e["outcome"] in ("deadlock", "panic", "crash"):
+            probs.append("%s: %s" % (e["outcome"], (e.get("detail") or "")[:700]))
+        elif e["outcome"] == "stuck" and "prefix" not in (e.get("detail") or ""):
+            probs.append("a call does not return promptly: %s" % (e.get("detail") or "")[:500])
+        if not probs:
+            continue
+        sig = None
+        for k, pred in WP_SIGNATURES.items():
+            if k in kf and pred(e):
+                sig = k
+        if sig is None and "wpool-flusher-exit-window" in kf and any("stranded" in p for p in probs) and len(probs) == 1 and _sig_flusher_window(e["events"]):
+            sig = "wpool-flusher-exit-window"
+        if sig:
+            chk.known[sig] = chk.known.get(sig, 0) + 1
+        else:
+            chk.violation("worker pool, scenario %s (%s schedule): %s" % (e["scenario"]["name"], e["mode"], "; ".join(probs)),
+                          {"scenario": e["scenario"], "events": e["events"], "decisions": e.get("decisions"), "executed": e.get("executed")})
+    chk.traces += len(execs)
+    chk.stages.append({"stage": "pool_executions", "scenarios": len(WP_SCENARIOS), "executions": len(execs), "outcomes": outcomes})
+    # ---- every recorded execution must be a behaviour of WPool.tla (binding; a rejection is drift, not a verdict)
+    n_acc = n_rej = 0
+    from concurrent.futures import ThreadPoolExecutor
+
+    def validate(sc):
+        traces = [e["events"] for e in execs if e["scenario"]["name"] == sc["name"] and e["outcome"] in ("ok", "panic", "deadlock") and e["events"]]
+        if not traces:
+            return sc, traces, None
+        return sc, traces, vlib.validate_event_traces("WPoolTrace.tla", wp_consts(sc, var), traces, {"k": "reset", "id": 0, "p": ""},
+                                                      invariants=("AtMostOnce", "NoStartAfterStop", "StopWaitsForJobs"))
+    scen_all = {sc["name"]: sc for sc in WP_SCENARIOS + [x for x in sched_scen if x["name"] not in {y["name"] for y in WP_SCENARIOS}]}
+    with ThreadPoolExecutor(max_workers=8) as pool:
+        outs = list(pool.map(validate, list(scen_all.values())))
+    for sc, traces, res in outs:
+        if res is None:
+            continue
+        st, tr, acc, rej, inv = res
+        for ti, name in inv:
+            chk.violation("worker pool, scenario %s: the validated execution violates %s of WPool.tla" % (sc["name"], name), {"scenario": sc, "events": traces[ti]})
+        chk.states += st
+        chk.transitions += tr
+        n_acc += acc
+        n_rej += len(rej)
+        chk.drift += len(rej)
+        if rej and len(chk.extra.setdefault("rejected_traces", [])) < 5:
+            ti, ei = rej[0]
+            chk.extra["rejected_traces"].append({"scenario": sc["name"], "event_index": ei, "events": traces[ti][:ei + 1][-12:]})
+    chk.stages.append({"stage": "pool_trace_validation", "module": "WPoolTrace.tla", "accepted": n_acc, "rejected_as_drift": n_rej})
+    if execs and len(chk.samples) < 3:
+        chk.samples.append({"scenario": execs[0]["scenario"], "events": execs[0]["events"][:40], "executed": execs[0].get("executed")})
+
+
+def wp_schedule_from_tlc(txt):
+    """Turns a TLC counterexample of WPool.tla into a schedule for cmd/wprun: an actor is stepped at its first action
+    (effect or observation) after it arrived at a gate; background goroutines reach their first gate by themselves."""
+    import re
+    at, sch = {}, []
+    for line in txt.splitlines():
+        m = re.match(r"^State \d+: <(\w+)(?:\((\d+)\))?", line)
+        if not m:
+            continue
+        a, i = m.group(1), m.group(2) or ""
+        body = a[1:]
+        if body.startswith(("Send", "Lazy")):
+            actor = "S" + i
+        elif body.startswith("Flusher"):
+            actor = "F"
+        elif body.startswith(("Worker", "Job")):
+            actor = "W"
+        elif body.startswith("Stop"):
+            actor = "T" + i
+        elif body.startswith("Run"):
+            actor = "R" + i
+        else:
+            continue
+        if actor not in at:
+            at[actor] = actor[0] in "STR"
+        if at[actor]:
+            sch.append(actor)
+            at[actor] = False
+        if a.startswith("O"):
+            at[actor] = True
+    return sch
+
+
+def _sig_flusher_window(events):
+    # H13: a deferred Send fails the try-lock after the flusher has decided to leave (flusher.exit) and before it unlocked
+    exiting = False
+    for ev in events:
+        if ev["k"] == "F" and ev["p"] == "wpool.flusher.exit":
+            exiting = True
+        elif ev["k"] == "F":
+            exiting = False
+        elif ev["k"] == "S" and ev["p"] == "wpool.lazy.tryfail" and exiting:
+            return True
+    return False
+
+
 def c17(chk):
     quick = chk.tier == "quick"
     # design: every interleaving of write / delete / reopen with a limit of 2 (the code clamps the limit to >= 100)
@@ -750,7 +939,7 @@ def c11(chk):
              mode="both", simulate=40 if quick else 800, depth=30)
 
 
-PLANS = {"C12": c12, "C06": c06, "C07": c07, "C08": c08, "C17": c17, "C18": c18, "C19": c19, "C20": c20, "C05": c05, "C11": c11, "C01": c01, "C02": c02, "C03": c03, "C09": c09, "C13": c13, "C14": c14}
+PLANS = {"C16": c16, "C12": c12, "C06": c06, "C07": c07, "C08": c08, "C17": c17, "C18": c18, "C19": c19, "C20": c20, "C05": c05, "C11": c11, "C01": c01, "C02": c02, "C03": c03, "C09": c09, "C13": c13, "C14": c14}
 
 
 def main():
